@@ -235,3 +235,88 @@ Proof.
   apply (sim_snap st st1 m1 Hwf); auto.
   intros a b Hab. destruct (HJ a b Hab) as [P [Q|Q]]; [destruct Q|]. split; assumption.
 Qed.
+
+(* ---- deepcopy preserves SHARING: the memo is an injective function from original to copy locations -------------- *)
+(* (function: an object reached twice is copied once; injective: two objects are never merged into one copy) *)
+Definition minj (m : memo) : Prop :=
+  forall a a' b, mlookup a m = Some b -> mlookup a' m = Some b -> a = a'.
+
+Definition dcj_spec (st0 : store) (rec : store -> memo -> val -> dcres val) : Prop :=
+  forall st m v st' m' v',
+    inv st0 st -> memo_inr (length st0) (length st) m -> minj m ->
+    rec st m v = Some (st', m', v') -> minj m' /\ mnew (length st) m m'.
+
+Lemma dcj_items : forall st0 rec, dcj_spec st0 rec -> dc_spec st0 rec ->
+  forall its st m st' m' its',
+    inv st0 st -> memo_inr (length st0) (length st) m -> minj m ->
+    dc_items rec its st m = Some (st', m', its') -> minj m' /\ mnew (length st) m m'.
+Proof.
+  intros st0 rec Hj Hdc. induction its as [|[k x] t IH]; intros st m st' m' its' Hinv Hm Hi H; simpl in H.
+  - inversion H; subst. split; [exact Hi|apply mnew_refl].
+  - destruct (rec st m k) as [[[st1 m1] k']|] eqn:E1; [|discriminate].
+    destruct (rec st1 m1 x) as [[[st2 m2] x']|] eqn:E2; [|discriminate].
+    destruct (dc_items rec t st2 m2) as [[[st3 m3] t']|] eqn:E3; [|discriminate].
+    inversion H; subst. clear H.
+    destruct (Hdc _ _ _ _ _ _ Hinv Hm E1) as (I1 & M1 & L1 & _).
+    destruct (Hj _ _ _ _ _ _ Hinv Hm Hi E1) as (J1 & N1).
+    destruct (Hdc _ _ _ _ _ _ I1 M1 E2) as (I2 & M2 & L2 & _).
+    destruct (Hj _ _ _ _ _ _ I1 M1 J1 E2) as (J2 & N2).
+    destruct (IH _ _ _ _ _ I2 M2 J2 E3) as (J3 & N3).
+    split; [exact J3|].
+    eapply (mnew_trans (length st) (length st1)); [lia|exact N1|].
+    eapply (mnew_trans (length st1) (length st2)); [lia|exact N2|exact N3].
+Qed.
+
+Lemma dcj_dcv : forall st0 fuel, dcj_spec st0 (dcv fuel).
+Proof.
+  intros st0. induction fuel as [|f IH]; intros st m v st' m' v' Hinv Hm Hi H.
+  - destruct v as [| | |l]; simpl in H; try (inversion H; subst; split; [exact Hi|apply mnew_refl]).
+    destruct (mlookup l m); [|discriminate]. inversion H; subst. split; [exact Hi|apply mnew_refl].
+  - destruct v as [| | |l]; simpl in H; try (inversion H; subst; split; [exact Hi|apply mnew_refl]).
+    destruct (mlookup l m) as [l'|] eqn:El.
+    { inversion H; subst. split; [exact Hi|apply mnew_refl]. }
+    destruct (get st l) as [o|] eqn:Hg; [|discriminate].
+    destruct (dc_items (dcv f) (o_items o) (st ++ [mkObj (o_kind o) []]) ((l, length st) :: m))
+      as [[[st2 m2] its']|] eqn:E; [|discriminate].
+    injection H as Hs' Hm' Hv'. subst st' m' v'.
+    assert (Hempty : items_inr (length st0) (length st) (o_items (mkObj (o_kind o) []))) by constructor.
+    destruct (inv_alloc st0 st (mkObj (o_kind o) []) Hinv Hempty) as [I1 V1].
+    assert (Lst1 : length (st ++ [mkObj (o_kind o) []]) = S (length st)) by (rewrite app_length; simpl; lia).
+    assert (M1 : memo_inr (length st0) (length (st ++ [mkObj (o_kind o) []])) ((l, length st) :: m)).
+    { constructor; [simpl in *; exact V1|]. eapply memo_inr_mono; [exact Hm|]. lia. }
+    assert (J1 : minj ((l, length st) :: m)).
+    { intros a a' b Ha Ha'. destruct (Nat.eq_dec a l) as [->|Hna]; destruct (Nat.eq_dec a' l) as [->|Hna']; auto.
+      - rewrite mlookup_cons_same in Ha. rewrite mlookup_cons_other in Ha' by assumption. inversion Ha; subst.
+        pose proof (mlookup_inr _ _ _ _ _ Hm Ha'). lia.
+      - rewrite mlookup_cons_same in Ha'. rewrite mlookup_cons_other in Ha by assumption. inversion Ha'; subst.
+        pose proof (mlookup_inr _ _ _ _ _ Hm Ha). lia.
+      - rewrite mlookup_cons_other in Ha, Ha' by assumption. eapply Hi; eauto. }
+    destruct (dcj_items st0 (dcv f) IH (dcv_spec st0 f) _ _ _ _ _ _ I1 M1 J1 E) as (J2 & N2).
+    split; [exact J2|].
+    intros a b Hab. destruct (N2 a b Hab) as [R|R]; [|right; lia].
+    destruct (Nat.eq_dec a l) as [->|Hne].
+    + rewrite mlookup_cons_same in R. inversion R; subst. right. lia.
+    + rewrite mlookup_cons_other in R by assumption. left. exact R.
+Qed.
+
+(* C09: deepcopy yields a graph ISOMORPHIC to the part of the store reachable from its argument: there is an injective
+   function (the memo) from original to fresh locations such that the copy of every object is the object with all its
+   pointers mapped; so sharing inside the copied graph is preserved exactly (no object copied twice, none merged) *)
+Theorem deepcopy_isomorphism : forall st fuel v st' v',
+  wf st -> below (length st) v -> deepcopy fuel st v = Some (st', v') ->
+  exists m, minj m /\ vrel m v v' /\
+            forall a b, mlookup a m = Some b ->
+                        (a < length st)%nat /\ (length st <= b < length st')%nat /\ copied st st' m a b.
+Proof.
+  intros st fuel v st' v' Hwf Hb H. unfold deepcopy in H.
+  destruct (dcv fuel st [] v) as [[[st1 m1] v1]|] eqn:E; [|discriminate]. injection H as <- <-.
+  assert (HJ0 : J st st [] []). { intros a b Hab. simpl in Hab. discriminate. }
+  assert (Hi0 : minj []). { intros a a' b Ha. simpl in Ha. discriminate. }
+  destruct (dcs_dcv st fuel st [] v st1 m1 v1 [] Hwf (inv_refl st) (Forall_nil _) HJ0 Hb E)
+    as (A & L & HJ & X & N & V).
+  destruct (dcj_dcv st fuel st [] v st1 m1 v1 (inv_refl st) (Forall_nil _) Hi0 E) as (Hinj & _).
+  destruct (dcv_spec st fuel st [] v st1 m1 v1 (inv_refl st) (Forall_nil _) E) as (_ & Mr & _ & _).
+  exists m1. split; [exact Hinj|]. split; [exact V|].
+  intros a b Hab. destruct (HJ a b Hab) as [P [Q|Q]]; [destruct Q|].
+  split; [exact P|]. split; [apply (mlookup_inr _ _ _ _ _ Mr Hab)|exact Q].
+Qed.
